@@ -132,6 +132,9 @@ func genIniForDecl(r *Rng, d *DeclSpec, dupSections bool) string {
 	if r.Chance(1, 6) {
 		b.WriteString("nosuchoption = 1\n")
 	}
+	if r.Fork("bom").Chance(1, 10) {
+		return "\xef\xbb\xbf" + b.String() // a byte order mark in front (whatever the library makes of it, it makes the same of it every time)
+	}
 	return b.String()
 }
 
@@ -177,6 +180,13 @@ func (propC15) Gen(r *Rng, idx int, tier string) *Scenario {
 			op := Op{Kind: []string{"help", "man", "iniwrite"}[or.Intn(3)]}
 			if op.Kind == "iniwrite" {
 				op.IniOpts = uint(or.Intn(8)) << 1
+			}
+			if op.Kind == "iniwrite" && or.Chance(1, 4) {
+				// saved to a file, which now and then cannot be created
+				op.File = "conf/app.ini"
+				if or.Bool() {
+					op.OpenErr = or.Pick([]string{"ENOENT", "EACCES", "EISDIR"})
+				}
 			}
 			if or.Chance(1, 5) {
 				// the writer fails part-way: what the NEXT evaluation produces must not depend on it
@@ -451,7 +461,11 @@ func (propC15) Judge(sc *Scenario) *Verdict {
 		sc5 := *sc
 		sc5.Ops = nil
 		for i := range sc.Ops {
-			sc5.Ops = append(sc5.Ops, Op{Kind: "decoy"}, sc.Ops[i])
+			dop := Op{Kind: "decoy"}
+			if sc.Ops[i].Kind == "parse" {
+				dop.Argv = sc.Ops[i].Argv
+			}
+			sc5.Ops = append(sc5.Ops, dop, sc.Ops[i])
 		}
 		o := Execute(&sc5, sc.Scheds[0])
 		v.Evals++
@@ -486,6 +500,13 @@ func (propC15) Judge(sc *Scenario) *Verdict {
 			case op.Kind == "help" || op.Kind == "man" || (op.Kind == "iniwrite" && op.File == ""):
 				cands = append(cands, i)
 			case op.Kind == "parse" && i > 0 && sc.Ops[i-1].Kind == "setenv" && sc.Ops[i-1].Key == "GO_FLAGS_COMPLETION" && sc.Decl.CompHandler:
+				cands = append(cands, i)
+			case op.Kind == "parse" && baseOut != nil && i < len(baseOut.Ops) && baseOut.Ops[i].Err == "flags.Error" && baseOut.Ops[i].ErrType != "help" && baseOut.Ops[i].ErrType != "required" && baseOut.Ops[i].Injected == 0 && len(baseOut.Ops[i].Calls) == 0 &&
+				!(i > 0 && sc.Ops[i-1].Kind == "setenv" && sc.Ops[i-1].Key == "GO_FLAGS_COMPLETION"):
+				// a command line that the parser itself rejects (no callee involved; not a
+				// help request, whose text shows current values, nor a count of positional
+				// arguments, which a reused parser keeps adding up) is rejected with the same
+				// words when it is handed in again
 				cands = append(cands, i)
 			}
 		}
